@@ -16,12 +16,16 @@ import (
 )
 
 func processOnce(f *fs.File) (out string) {
+	return processOnceWith(f, core.WithFixedSeedForRegex())
+}
+
+func processOnceWith(f *fs.File, oo ...core.Option) (out string) {
 	defer func() {
 		if r := recover(); r != nil {
 			out = fmt.Sprintf("panic %v", r)
 		}
 	}()
-	j := kit.NewJApiFromFile(f, core.WithFixedSeedForRegex())
+	j := kit.NewJApiFromFile(f, oo...)
 	if je := j.ValidateJAPI(); je != nil {
 		return fmt.Sprintf("err idx=%d line=%d msg=%s", je.Index(), je.Line(), hex.EncodeToString([]byte(je.Error())))
 	}
